@@ -41,7 +41,8 @@ class ExtractError(Exception):
 
 # cfg atoms true in the verified configuration (default feature set, R4)
 CFG_TRUE = {'feature="std"', 'feature="debug"', 'feature="use_backtrace"', 'feature="env_logger"',
-            'feature="debug_enforcement_state"', 'feature="debug_node_state"'}
+            'feature="debug_enforcement_state"', 'feature="debug_node_state"',
+            'feature="crypt"'}          # lightning-storage-server lib: default feature (values are encrypted after the MAC is appended)
 
 DELETE_MACROS = {"debug", "info", "warn", "error", "trace", "dbgvals", "trace_enforcement_state",
                  "trace_node_state", "policy_log", "log", "println", "eprintln", "dbg",
